@@ -44,6 +44,7 @@ func genC20(o *vcoq.Out, r *vcoq.Rand, tier string) error {
 	g.vendStore()
 	g.meterMask()
 	g.stockMask()
+	g.pubStore()
 	return nil
 }
 
